@@ -141,9 +141,9 @@ func (c *Ctx) joinInlined(fr *Frame, st *State, exits []*exitInfo, rt types.Type
 		conds[i] = e.reach
 	}
 	m := c.mergeStates(sts, conds)
-	st.regs, st.heap = m.regs, m.heap
+	st.regs, st.heap, st.epoch, st.pepoch = m.regs, m.heap, m.epoch, m.pepoch
 	reach := or(conds...)
-	if len(reach) > 30 {
+	if len(reach) > 30 && c.quant == 0 {
 		r := c.fresh("reach_ret", "Bool")
 		c.assumeAlways(eq(r, reach))
 		reach = r
@@ -227,6 +227,8 @@ func (c *Ctx) contractCall(fr *Frame, st *State, site ssa.Instruction, fn *ssa.F
 	if fn.Synthetic != "" {
 		fd = fr.fd
 	}
+	// ghost statements attached to this call site run before the call
+	c.atCallEffects(fr, st, site, fn, c.calleeEnv(fr, fn, fn.Signature, paramNames(fn), st, st, args, fd))
 	pre := st.clone()
 	env := c.calleeEnv(fr, fn, fn.Signature, paramNames(fn), pre, pre, args, fd)
 	if con.External || con.Trusted {
@@ -275,10 +277,23 @@ func (c *Ctx) contractCall(fr *Frame, st *State, site ssa.Instruction, fn *ssa.F
 	}
 	// frame
 	if con.AssignsAll {
+		kept := c.keptLeaves(con)
+		var keepTerms []string
+		for _, k := range kept {
+			keepTerms = append(keepTerms, c.H(st, k[0], k[1]))
+		}
+		nextPre := c.next(st)
 		if con.NoGhost {
 			c.havocEverythingButGhost(st)
 		} else {
 			c.havocEverything(st)
+		}
+		for i, k := range kept {
+			c.nsym++
+			name := sym(fmt.Sprintf("%s@%d_kept", k[0], c.nsym))
+			c.declare(name, k[1])
+			c.assumeAlways(fmt.Sprintf("(forall ((r Int)) (! (=> (< r %s) (= (select %s r) (select %s r))) :pattern ((select %s r))))", nextPre, name, keepTerms[i], name))
+			st.heap[k[0]] = name
 		}
 	} else {
 		locs := c.assignLocs(env, con)
@@ -294,6 +309,9 @@ func (c *Ctx) contractCall(fr *Frame, st *State, site ssa.Instruction, fn *ssa.F
 	for _, en := range con.Ensures {
 		g := post.evalTop(en)
 		c.assume(g.Term)
+	}
+	if c.prog.isLogg(c.fn) && c.dry == 0 && c.pure == 0 && (con.AssignsAll || len(con.Assigns) > 0) {
+		c.assumeInvariants(st)
 	}
 	return res, exits
 }
@@ -408,10 +426,38 @@ func (c *Ctx) havocEverythingButGhost(st *State) {
 	st.heap["$next"] = nx
 }
 
+// atCallEffects runs the top-level contract's "at call <callee> effect ghost.v = e" statements.
+func (c *Ctx) atCallEffects(fr *Frame, st *State, site ssa.Instruction, callee *ssa.Function, cenv *Env) {
+	top := c.topFrame
+	if top == nil || top.con == nil || c.pure > 0 {
+		return
+	}
+	rel := callee.RelString(nil)
+	if callee.Pkg != nil {
+		rel = callee.RelString(callee.Pkg.Pkg)
+	}
+	for _, a := range top.con.Asserts {
+		if a.Effect == nil || (a.Where != "call "+rel && a.Where != "call "+callee.String()) {
+			continue
+		}
+		env := &Env{c: c, fr: top, fn: top.fn, st: st, old: top.old, vars: map[string]*Val{}, fd: top.fd}
+		for i, p := range top.fn.Params {
+			if i < len(top.params) {
+				env.vars[p.Name()] = top.params[i]
+			}
+		}
+		for k, v := range cenv.vars {
+			env.vars["callee."+k] = v
+		}
+		c.applyEffect(env, st, a.Effect)
+		c.atCallSeen[a] = true
+	}
+}
+
 // atCallAsserts checks the top-level contract's "at call <callee> assert e" clauses at this call site.
 func (c *Ctx) atCallAsserts(fr *Frame, st *State, site ssa.Instruction, callee *ssa.Function, cenv *Env) {
 	top := c.topFrame
-	if top == nil || top.con == nil || c.pure > 0 {
+	if top == nil || top.con == nil || c.pure > 0 || c.dry > 0 {
 		return
 	}
 	rel := callee.RelString(nil)
@@ -432,8 +478,6 @@ func (c *Ctx) atCallAsserts(fr *Frame, st *State, site ssa.Instruction, callee *
 			env.vars["callee."+k] = v
 		}
 		if a.Effect != nil {
-			c.applyEffect(env, st, a.Effect)
-			c.atCallSeen[a] = true
 			continue
 		}
 		g := env.evalTop(a.Clause)
@@ -594,9 +638,9 @@ func (c *Ctx) invoke(fr *Frame, st *State, site ssa.Instruction, recv *Val, m *t
 		return c.zeroOrFresh(rt), exits
 	}
 	mst := c.mergeStates(sts, conds)
-	st.regs, st.heap, st.epoch = mst.regs, mst.heap, mst.epoch
+	st.regs, st.heap, st.epoch, st.pepoch = mst.regs, mst.heap, mst.epoch, mst.pepoch
 	reach := or(conds...)
-	if len(reach) > 30 {
+	if len(reach) > 30 && c.quant == 0 {
 		rn := c.fresh("reach_inv", "Bool")
 		c.assumeAlways(eq(rn, reach))
 		reach = rn
@@ -1176,4 +1220,42 @@ func (e *Env) globalByName(name string) *ssa.Global {
 		}
 	}
 	return nil
+}
+
+// keptLeaves resolves "keeps T.f" items to (leaf, sort) pairs.
+func (c *Ctx) keptLeaves(con *Contract) [][2]string {
+	var out [][2]string
+	rp := c.prog.Pkgs[rootPkg]
+	for _, it := range con.Keeps {
+		parts := strings.SplitN(it, ".", 2)
+		if len(parts) != 2 || rp == nil {
+			c.unsupported("keeps item %q", it)
+			continue
+		}
+		tn, ok := rp.Members[parts[0]].(*ssa.Type)
+		if !ok {
+			c.unsupported("keeps: unknown type %q", parts[0])
+			continue
+		}
+		stt, ok := tn.Type().Underlying().(*types.Struct)
+		if !ok {
+			continue
+		}
+		found := false
+		for i := 0; i < stt.NumFields(); i++ {
+			if stt.Field(i).Name() == parts[1] || parts[1] == "*" {
+				leaves(stt.Field(i).Type(), []int{i}, func(path []int, lt types.Type) {
+					if ls := sortOf(lt); ls != "" {
+						n, _ := leafName("F:"+typeName(tn.Type()), tn.Type(), path)
+						out = append(out, [2]string{n, c.compSort(ls, 1)})
+					}
+				})
+				found = true
+			}
+		}
+		if !found {
+			c.unsupported("keeps: no field %q", it)
+		}
+	}
+	return out
 }
